@@ -489,6 +489,9 @@ class Run:
             g = self.const_table(e)
             if g is not None:
                 return ('P', g, 0)
+            gq = self.prog.globals.get(e.get('q')) if e.get('q') else None
+            if gq is not None and gq.get('const') and isinstance(gq.get('init'), dict) and const_val(gq['init']) is not None:
+                return const_val(gq['init'])            # scalar constant at namespace scope
             if ('O', e['id']) in self.bufs:
                 return ('P', ('O', e['id']), 0)
             raise Unsupported('variable %s' % e.get('n'))
